@@ -1382,6 +1382,25 @@ def template_input(inputfile, dumpfile, flux=False, verbose=False):
     verbose : :class:`bool`, optional
         If ``True``, print lots of extra information.
     """
+    #
+    # RUN2D and RUN1D are set from the parameter file while this function
+    # runs; make sure they are put back however it ends.
+    #
+    orig_env = dict([(r, os.environ.get(r)) for r in ('RUN2D', 'RUN1D')])
+    try:
+        _template_input(inputfile, dumpfile, flux=flux, verbose=verbose)
+    finally:
+        for r in orig_env:
+            if orig_env[r] is None:
+                os.environ.pop(r, None)
+            else:
+                os.environ[r] = orig_env[r]
+    return
+
+
+def _template_input(inputfile, dumpfile, flux=False, verbose=False):
+    """The body of :func:`template_input`.
+    """
     import pickle
     from astropy.constants import c as cspeed
     from .. import __version__ as pydl_version
